@@ -337,7 +337,11 @@ def handle (case impl : List String) : Verdict :=
         let tags := ["tx", be, smp, "u-" ++ inputTag ub, "v-" ++ inputTag vb]
         let want := match m with | .ok (a, b) => s!"{a},{b}" | .panic _ => "panic"
         let got := if i0.startsWith "panic:" then "panic" else i0
-        let vd := (Verdict.ok tags).withDiff (got != want) s!"model {want}"
+        -- repeat sampler beyond 2^31 (or ±∞ / NaN): which texel comes out is outside the property (C12); only
+        -- "no panic, in bounds" is judged there, by the spec below
+        let beyond := smp == "rep" && got != "panic" && want != "panic" &&
+          [ub, vb].any (fun c => match toRat? c with | some q => !Spec.Tex.below2p31 q | none => true)
+        let vd := (Verdict.ok (if beyond then tags ++ ["beyond-2^31"] else tags)).withDiff (!beyond && got != want) s!"model {want}"
         -- impl-only judgement
         if i0.startsWith "panic:" then vd.withSpec true (be ++ "-texel-panics") s!"sampler panicked: {i0}"
         else
